@@ -21,7 +21,8 @@ META = dict(
          "bytes. Calls that never return are judged by the request ledger. Complete for the listed shapes and single "
          "faults only; multi-fault sequences are not enumerated, except the cross {write k rejected (first/middle/last "
          "or all k when <=4)} x {CLOSE answered with error/EOF status, connection lost at CLOSE, connection lost before CLOSE}, "
-         "whose oracle is: the caller receives the exception the rejected write's status produced (identity on the exception "
+         "and the cross {synchronous stat()/listdir() on the same client after chunk j (from the put/putfo callback, or between two "
+         "writes of the hand-driven file)} x {WRITE k rejected, every code} for j before and at/after k; the close-plan cross was first judged by: the caller receives the exception the rejected write's status produced (identity on the exception "
          "chain).",
     note="Trusted: harness server (vf.sftpfaults.FaultyHandle) and pipe. Raising on a fault-free transfer is not judged "
          "(the statement allows it) but at least one exact fault-free transfer per shape is required for a verdict.",
@@ -95,6 +96,8 @@ def signature(case, out):
                else "its status is discarded unread")
         if out.get("close_plan", "ok") != "ok":
             how += "; " + plan_class(out["close_plan"])
+        if case.get("sync") and not out.get("fault_status_examined") and out.get("sync_before_rejected_write") is False:
+            how = "its status was taken off the wire by an interleaved synchronous request and never examined"
         if fam == "put/putfo":
             if case["confirm"]:
                 return ("put/putfo(confirm=True) returns normally although a pipelined WRITE was rejected (%s; the size "
@@ -255,6 +258,39 @@ def run(ctx):
                     judge(ctx, case, o)
                     if k is not None:
                         judge_reported(ctx, case, o)
+            # ---- a synchronous request on the same client between the pipelined writes ----------
+            # (progress callback of put/putfo calling stat()/listdir(); stat() between two writes of the
+            # hand-driven file) x a rejected write, before and after the sync request
+            if upload and nreq >= 2 and not stopped:
+                ncalls = nreq if shape["op"] != "pfile" else -(-shape["size"] // shape["wsize"])
+                ks = list(range(nreq)) if nreq <= 6 else sorted({0, 1, 2, nreq // 2, nreq - 2, nreq - 1})
+                cells = []
+                for k in ks:
+                    for j in sorted({0, k - 1}):
+                        if 0 <= j < min(k, ncalls):
+                            cells += [(j, k, c) for c in X.CODES]  # sync before the rejected write: every code
+                    if k < ncalls:
+                        cells += [(j, k, c) for j in sorted({k, ncalls - 1}) for c in ([3, 4] if ctx.quick else X.CODES)]
+                for j, k, code in cells:
+                    if time.time() > end:
+                        stopped = True
+                        break
+                    case = dict(shape, fault=["write", k, code], sync=[j, "stat" if (j + k) % 2 else "listdir"])
+                    o = X.run_case(case, root)
+                    if o["status"] == "ok" and not (o.get("fault_delivered") and o.get("sync_done") and o.get("statuses_taken_by_sync")):
+                        ctx.case(case, nontrivial=False)
+                        ctx.count("fault_not_reached")
+                        if o.get("fault_delivered"):
+                            judge(ctx, case, o)
+                        continue
+                    before = bool(o.get("sync_before_rejected_write"))
+                    ctx.case(case, sample=dict(case, observed={x: o.get(x) for x in ("outcome", "exc", "statuses_taken_by_sync", "sync_before_rejected_write")})
+                             if j == 0 and k == 1 and code == 3 and len(ctx.samples) < 6 else None)
+                    ctx.count("sync_between_writes_cells")
+                    ctx.count("sync_%s_rejected_write_cells" % ("before" if before else "after"))
+                    ctx.count("sync_cells_%s" % ("put" if shape["op"] != "pfile" else "pfile"))
+                    ctx.count("write_statuses_taken_by_sync_request", o.get("statuses_taken_by_sync", 0))
+                    judge(ctx, case, o)
             if stopped:
                 ctx.count("stopped_by_time_cap")
                 ctx.inconclusive("time cap reached before the fault enumeration was complete")
@@ -274,5 +310,10 @@ def run(ctx):
     ctx.require("rejected_write_outcomes_checked", ctx.pick(600, 6000))
     for pl in ("status:4", "status:1", "drop_at_close", "drop_before_close"):
         ctx.require("cells_" + plan_class(pl).replace(" ", "_"), ctx.pick(60, 500))
+    ctx.require("sync_between_writes_cells", ctx.pick(400, 4000))
+    ctx.require("sync_before_rejected_write_cells", ctx.pick(250, 2500))
+    ctx.require("sync_after_rejected_write_cells", ctx.pick(80, 1200))
+    ctx.require("sync_cells_put", ctx.pick(200, 2000))
+    ctx.require("sync_cells_pfile", ctx.pick(100, 1000))
     for c in X.CODE_NAMES.values():
         ctx.require("faults_code_" + c, ctx.pick(100, 1000))
